@@ -477,7 +477,11 @@ func (c *Ctx) ruleTypeInfoHelpers() {
 					// one Unalias call may serve both origins: Unalias(t) with t the type or, behind a pointer, its element
 					for _, a := range P.Resolve(call.Call.Args[0]) {
 						if P.CallTo(a, "(*go/types.Pointer).Elem") != nil {
-							sawElem = true
+							if P.elemOfUnaliasedPointer(a) {
+								sawElem = true
+							} else {
+								bad = "the pointer is stripped before aliases are looked through (type P = *T is not seen as a pointer): " + short(P.termDesc(a, false))
+							}
 						} else {
 							sawPlain = true
 						}
@@ -505,4 +509,26 @@ func (c *Ctx) ruleTypeInfoHelpers() {
 		}
 	}
 	c.floor("*types.Named assertions in util type helpers", n, 2)
+}
+
+// elemOfUnaliasedPointer: v is ptr.Elem() for a ptr obtained by asserting an un-aliased type to *types.Pointer
+// (`types.Unalias(t).(*types.Pointer)`): a pointer hidden behind an alias (type P = *T) is stripped as well.
+func (P *Program) elemOfUnaliasedPointer(v ssa.Value) bool {
+	call := P.CallTo(v, "(*go/types.Pointer).Elem")
+	if call == nil || len(call.Call.Args) == 0 {
+		return false
+	}
+	return P.RootsAll(call.Call.Args[0], func(r ssa.Value) bool {
+		var ta *ssa.TypeAssert
+		switch x := r.(type) {
+		case *ssa.Extract:
+			ta, _ = x.Tuple.(*ssa.TypeAssert)
+		case *ssa.TypeAssert:
+			ta = x
+		}
+		if ta == nil || typeStr(ta.AssertedType) != "*go/types.Pointer" {
+			return false
+		}
+		return P.RootsAll(ta.X, func(o ssa.Value) bool { return P.CallTo(o, "go/types.Unalias") != nil })
+	})
 }
